@@ -642,7 +642,9 @@ fn gen_case(family: &str, rng: &mut Rng, k: u64) -> Case {
         }
         _ => {
             // substring family: small alphabets, periodic needles, long needles (>32) from time to time
-            let alpha: &[u8] = if k % 3 == 0 { b"ab" } else if k % 3 == 1 { b"abc" } else { b"ab\x00z" };
+            // every 7th case draws from bytes that agree modulo 64 (and 32): confusable for byte sets, hashes and
+            // masks that keep only some bits of a byte (approximate byte set `b % 64`, Shift-Or masks, rolling hashes)
+            let alpha: &[u8] = if k % 7 == 3 { b"a!\xe1\xa1" } else if k % 3 == 0 { b"ab" } else if k % 3 == 1 { b"abc" } else { b"ab\x00z" };
             let nlen = match k % 9 {
                 0 => 0,
                 1 => 1,
